@@ -1,61 +1,62 @@
 (* C20 property theorems.  Only statements closed by [exact]; each followed by Print Assumptions.
-   All are about Model.run / Model.final -- the definitions Harness.chk evaluates against the real
-   MultiOutputHandlerManager.  [m_err = false] excludes histories on which a record writer reports an error
-   (CSV schema change); Example C20_nonvacuous shows the hypotheses are met by a real eviction history. *)
-From Miller Require Import Base.Record C20.Model C20.Proofs.
+   All are about Model.runR / Model.finalR -- the manager as repaired (suspend / resume of evicted handlers), the
+   definitions Harness.chk evaluates against the real MultiOutputHandlerManager.  [r_err = false] excludes histories on
+   which a record writer reports an error (CSV schema change); Example C20_nonvacuous shows the hypotheses are met by
+   a real eviction history.  The theorems C20_unrepaired_manager_* are about the manager as it was before the repair
+   (Model.run / Model.final): they state what the repair removed and are not tied to the implementation any more. *)
+From Miller Require Import Base.Record C20.Model C20.Proofs C20.ProofsR.
 Open Scope list_scope.
 
-(* LRU invariant, every history, every capacity: no target open twice, never more than max(c,1) handlers open
-   (pipes excepted: they are never evicted), evicted names are exactly the touched names that are not open. *)
+(* LRU invariant, every history, every capacity: no target open twice or suspended twice, never more than max(c,1)
+   handlers open (pipes excepted: they are never evicted), suspended names are not open, and the touched names are
+   exactly the open and the suspended ones. *)
 Theorem C20_lru_invariant :
-  forall md c F ops fs0, let m := run md c F ops fs0 in
-  m_err m = false ->
-  NoDup (map fst (m_open m)) /\
-  (is_pipe md = false -> List.length (m_open m) <= Nat.max c 1) /\
-  (forall t, In t (m_evicted m) -> ~ In t (map fst (m_open m))) /\
-  (forall t, In t (targets_of ops) <-> In t (map fst (m_open m)) \/ In t (m_evicted m)).
-Proof.
-  exact (fun md c F ops fs0 He =>
-    let B := run_book md c F ops fs0 He in
-    conj (b_nodup _ _ _ _ B) (conj (b_cap _ _ _ _ B) (conj (b_disj _ _ _ _ B) (b_cov _ _ _ _ B)))).
-Qed.
+  forall md c F ops fs0, let m := runR md c F ops fs0 in
+  r_err m = false ->
+  NoDup (map fst (r_open m)) /\ NoDup (map fst (r_susp m)) /\
+  (is_pipe md = false -> List.length (r_open m) <= Nat.max c 1) /\
+  (forall t, In t (map fst (r_susp m)) -> ~ In t (map fst (r_open m))) /\
+  (forall t, In t (targets_of ops) <-> In t (map fst (r_open m)) \/ In t (map fst (r_susp m))).
+Proof. exact lru_invariant_R. Qed.
 Print Assumptions C20_lru_invariant.
 
 (* routing is complete and ordered: after Close, the records in target t are what was there to begin with
    (kept in append mode, truncated otherwise, untouched if t was never written) followed by exactly the records
    routed to t, in stream order -- every format, every mode, ANY number of targets and revisit pattern. *)
 Theorem C20_routing_complete_ordered_records :
-  forall md c F ops fs0, m_err (run md c F ops fs0) = false ->
-  forall t, recs_of (final md c F ops fs0 t) = recs_of (start md fs0 ops t) ++ recs_of_events (events_of t ops).
-Proof. exact routing_records. Qed.
+  forall md c F ops fs0, r_err (runR md c F ops fs0) = false ->
+  forall t, recs_of (finalR md c F ops fs0 t) = recs_of (start md fs0 ops t) ++ recs_of_events (events_of t ops).
+Proof. exact routing_records_R. Qed.
 Print Assumptions C20_routing_complete_ordered_records.
 
 (* the same for text written by redirected print / printn / dump *)
 Theorem C20_routing_complete_ordered_strings :
-  forall md c F ops fs0, m_err (run md c F ops fs0) = false ->
-  forall t, raws_of (final md c F ops fs0 t) = raws_of (start md fs0 ops t) ++ strs_of_events (events_of t ops).
-Proof. exact routing_strings. Qed.
+  forall md c F ops fs0, r_err (runR md c F ops fs0) = false ->
+  forall t, raws_of (finalR md c F ops fs0 t) = raws_of (start md fs0 ops t) ++ strs_of_events (events_of t ops).
+Proof. exact routing_strings_R. Qed.
 Print Assumptions C20_routing_complete_ordered_strings.
 
-(* DKVP, NIDX, JSON Lines: each target is exactly the one document a single writer produces for its
-   sub-sequence, for ANY number of targets (eviction and re-open are invisible) *)
-Theorem C20_one_document_stateless_formats :
-  forall md c F ops fs0, stateless F = true -> m_err (run md c F ops fs0) = false ->
-  forall t, exists d, single_doc F (events_of t ops) = Some d /\ final md c F ops fs0 t = start md fs0 ops t ++ d.
-Proof. exact one_document_stateless. Qed.
-Print Assumptions C20_one_document_stateless_formats.
+(* ONE document per target: EVERY format, EVERY mode, ANY number of targets, any capacity, any revisit pattern --
+   each touched target holds base ++ exactly the document a single writer produces for its sub-sequence
+   (base = previous content in append mode, empty otherwise); untouched targets are unchanged.
+   (Before the repair this held only for stateless formats or within the capacity; see C20_unrepaired_manager_*.) *)
+Theorem C20_one_document :
+  forall md c F ops fs0, r_err (runR md c F ops fs0) = false ->
+  forall t,
+  (touched t ops = true ->
+   exists d, single_doc F (events_of t ops) = Some d /\ finalR md c F ops fs0 t = base md fs0 t ++ d) /\
+  (touched t ops = false -> finalR md c F ops fs0 t = fs0 t).
+Proof. exact one_document_repaired. Qed.
+Print Assumptions C20_one_document.
 
-(* CSV, JSON (any format): when nothing is evicted -- pipes, or no more distinct targets than the capacity --
-   each touched target holds base ++ ONE document of its sub-sequence.
-   base = previous content in append mode (append_mode_extends_existing), empty otherwise. *)
-Theorem C20_one_document_within_capacity :
-  forall md c F ops fs0,
-  (is_pipe md = true \/ List.length (distinct (targets_of ops)) <= c) ->
-  m_err (run md c F ops fs0) = false ->
+(* append mode (">>", tee -a, split -a) extends what the file held; write mode and pipes start from nothing *)
+Theorem C20_append_mode_extends_existing :
+  forall md c F ops fs0, r_err (runR md c F ops fs0) = false ->
   forall t, touched t ops = true ->
-  exists d, single_doc F (events_of t ops) = Some d /\ final md c F ops fs0 t = base md fs0 t ++ d.
-Proof. exact one_document_no_eviction. Qed.
-Print Assumptions C20_one_document_within_capacity.
+  exists d, single_doc F (events_of t ops) = Some d /\
+            finalR md c F ops fs0 t = (match md with MAppend => fs0 t | _ => [] end) ++ d.
+Proof. exact append_mode_extends. Qed.
+Print Assumptions C20_append_mode_extends_existing.
 
 (* what "one document" means: one header line (CSV, TSV) / one bracket pair (JSON) exactly when there is a record;
    XTAB: exactly one empty line between consecutive records *)
@@ -71,16 +72,17 @@ Print Assumptions C20_document_has_one_header_one_bracket_pair.
 
 (* targets never written keep their content, whatever else happens *)
 Theorem C20_untouched_targets_unchanged :
-  forall md c F ops fs0, m_err (run md c F ops fs0) = false ->
-  forall t, touched t ops = false -> final md c F ops fs0 t = fs0 t.
-Proof. exact untouched_unchanged. Qed.
+  forall md c F ops fs0, r_err (runR md c F ops fs0) = false ->
+  forall t, touched t ops = false -> finalR md c F ops fs0 t = fs0 t.
+Proof. exact (fun md c F ops fs0 He t => proj2 (one_document_repaired md c F ops fs0 He t)). Qed.
 Print Assumptions C20_untouched_targets_unchanged.
 
-(* REFUTED for header / bracket formats beyond the capacity: at the real capacity 256, 257 targets written once
+(* The manager BEFORE the repair (Model.run: eviction closes, re-open starts a fresh writer), header / bracket formats beyond
+   the capacity: at the real capacity 256, 257 targets written once
    and the first one written again gives a CSV file with two header lines / a JSON file with two bracket pairs
    (the handler was evicted, closed, and re-opened in append mode with a fresh record writer).
-   Finding class lru-evict-reopen-repeats-header. *)
-Theorem C20_one_document_beyond_capacity_csv_refuted :
+   This was finding lru-evict-reopen-repeats-header; repaired in /repo (C20_one_document is the theorem about the code now). *)
+Theorem C20_unrepaired_manager_repeats_csv_header :
   exists c ops t,
     c = 256 /\ List.length (distinct (targets_of ops)) = 257 /\
     m_err (run MWrite c FCsv ops empty_store) = false /\
@@ -91,9 +93,9 @@ Proof.
   exact (ex_intro _ 256 (ex_intro _ (witness_ops 256) (ex_intro _ (wname 0)
           (conj eq_refl (conj (proj1 witness_csv_256) (proj2 witness_csv_256)))))).
 Qed.
-Print Assumptions C20_one_document_beyond_capacity_csv_refuted.
+Print Assumptions C20_unrepaired_manager_repeats_csv_header.
 
-Theorem C20_one_document_beyond_capacity_json_refuted :
+Theorem C20_unrepaired_manager_repeats_json_brackets :
   exists c ops t,
     c = 256 /\
     m_err (run MWrite c FJson ops empty_store) = false /\
@@ -105,11 +107,11 @@ Theorem C20_one_document_beyond_capacity_json_refuted :
 Proof.
   exact (ex_intro _ 256 (ex_intro _ (witness_ops 256) (ex_intro _ (wname 0) (conj eq_refl witness_json_256)))).
 Qed.
-Print Assumptions C20_one_document_beyond_capacity_json_refuted.
+Print Assumptions C20_unrepaired_manager_repeats_json_brackets.
 
 (* the same defect under XTAB loses a record BOUNDARY: the separating empty line is not written after a re-open,
    so two records read back as one (smallest instance: capacity 1, targets Aa Ab Aa) *)
-Theorem C20_one_document_beyond_capacity_xtab_refuted :
+Theorem C20_unrepaired_manager_loses_xtab_separator :
   render FXtab (final MWrite 1 FXtab (witness_ops 1) empty_store (wname 0)) = B "a 0
 b x
 a 1
@@ -121,37 +123,25 @@ a 1
 b x
 ").
 Proof. exact witness_xtab_small. Qed.
-Print Assumptions C20_one_document_beyond_capacity_xtab_refuted.
+Print Assumptions C20_unrepaired_manager_loses_xtab_separator.
 
 (* true LRU: at every moment the open handlers are exactly the max(c,1) most recently used distinct targets, most
-   recent first -- so the handler that gets closed on a miss at capacity is the least recently used one *)
+   recent first -- so the handler that gets suspended on a miss at capacity is the least recently used one *)
 Theorem C20_open_set_is_most_recently_used :
-  forall md c F ops fs0, is_pipe md = false -> m_err (run md c F ops fs0) = false ->
-  map fst (m_open (run md c F ops fs0)) = firstn (Nat.max c 1) (recency (targets_of ops)).
-Proof. exact open_is_most_recent. Qed.
+  forall md c F ops fs0, is_pipe md = false -> r_err (runR md c F ops fs0) = false ->
+  map fst (r_open (runR md c F ops fs0)) = firstn (Nat.max c 1) (recency (targets_of ops)).
+Proof. exact open_is_most_recent_R. Qed.
 Print Assumptions C20_open_set_is_most_recently_used.
 
-(* what a repair of lru-evict-reopen-repeats-header must achieve, shown for the keep_writer_on_evict variant of the
-   manager (Model.runR: eviction keeps the record writer, re-open resumes it, Close finishes evicted targets too):
-   ONE document per target for EVERY format, ANY number of targets, any capacity; untouched targets unchanged *)
-Theorem C20_one_document_repaired_manager :
-  forall md c F ops fs0, r_err (runR md c F ops fs0) = false ->
-  forall t,
-  (touched t ops = true ->
-   exists d, single_doc F (events_of t ops) = Some d /\ finalR md c F ops fs0 t = base md fs0 t ++ d) /\
-  (touched t ops = false -> finalR md c F ops fs0 t = fs0 t).
-Proof. exact one_document_repaired. Qed.
-Print Assumptions C20_one_document_repaired_manager.
-
-(* ... and on the 257-target witness the repaired variant writes one header / one bracket pair *)
-Theorem C20_repaired_manager_on_witness :
+(* ... and on the 257-target history on which the unrepaired manager repeated the header, one header / one bracket pair *)
+Theorem C20_one_document_on_old_witness :
   let ops := witness_ops 256 in
   r_err (runR MWrite 256 FCsv ops empty_store) = false /\
   count is_header (finalR MWrite 256 FCsv ops empty_store (wname 0)) = 1 /\
   count is_open (finalR MWrite 256 FJson ops empty_store (wname 0)) = 1 /\
   count is_close (finalR MWrite 256 FJson ops empty_store (wname 0)) = 1.
 Proof. exact repaired_on_witness. Qed.
-Print Assumptions C20_repaired_manager_on_witness.
+Print Assumptions C20_one_document_on_old_witness.
 
 (* tee passes every record on and sees every record even when a later head stops early: the tee stage does not
    forward the downstream-done flag, so the reader is never told to stop.  _partial: this is the flag-propagation
@@ -163,17 +153,23 @@ Theorem C20_main_stream_continues_partial :
 Proof. exact tee_then_head. Qed.
 Print Assumptions C20_main_stream_continues_partial.
 
-(* hypotheses are satisfiable on a real eviction history: capacity 2, three targets, DKVP, the first target revisited
-   after its eviction; and on a CSV history within capacity *)
+(* hypotheses are satisfiable on a real eviction history: capacity 2, three targets, CSV, the first target revisited
+   after its eviction (suspended, resumed: ONE header); append mode onto existing content *)
 Example C20_nonvacuous :
   let ops := [(B "x", ERec [(B "a", B "1")]); (B "y", ERec [(B "a", B "2")]); (B "z", EStr (B "hello"));
               (B "x", ERec [(B "a", B "3")])] in
-  m_err (run MWrite 2 FDkvp ops empty_store) = false /\
-  m_evicted (run MWrite 2 FDkvp ops empty_store) = [B "y"] /\
-  stateless FDkvp = true /\ touched (B "x") ops = true /\ touched (B "q") ops = false /\
-  render FDkvp (final MWrite 2 FDkvp ops empty_store (B "x")) = B "a=1
-a=3
+  r_err (runR MWrite 2 FCsv ops empty_store) = false /\
+  map fst (r_susp (runR MWrite 2 FCsv ops empty_store)) = [B "y"] /\
+  touched (B "x") ops = true /\ touched (B "q") ops = false /\
+  render FCsv (finalR MWrite 2 FCsv ops empty_store (B "x")) = B "a
+1
+3
 " /\
-  m_err (run MAppend 3 FCsv ops empty_store) = false /\
-  List.length (distinct (targets_of ops)) <= 3.
-Proof. vm_compute. repeat split; reflexivity || lia. Qed.
+  render FCsv (finalR MAppend 2 FCsv ops (upd (B "x") [IRaw (B "old
+")] empty_store) (B "x")) = B "old
+a
+1
+3
+" /\
+  r_err (runR MAppend 3 FJson ops empty_store) = false.
+Proof. vm_compute. repeat split; reflexivity. Qed.
